@@ -194,6 +194,22 @@ def run_decoy(w, rng, cop):
     w.faults_fired += 1
 
 
+def raw_trips(w, rng, d):
+    """0-2 code round trips of the UN-normalized decoded data before the next normalize: an API round trip
+    like any other (harmless when the raw round trip is lossless)."""
+    for _ in range(rng.choice([0, 0, 0, 1, 1, 2])):
+        c = w.execute({"op": "to_code", "in": [d.id], "raw": True}, rng)
+        if c is None or w.stop:
+            return None if w.stop else d
+        d2 = w.execute({"op": "from_code", "in": [c.id]}, rng)
+        if d2 is None or w.stop:
+            return None if w.stop else d
+        w.count("fault_raw_code_trip_before_normalize")
+        w.faults_fired += 1
+        d = d2
+    return d
+
+
 def run_c06(seed, tree, tier, known):
     rng = prng.PRNG(seed)
     cfg = swarm_c06(rng, tier)
@@ -234,6 +250,8 @@ def run_c06(seed, tree, tier, known):
             p.lineage = lineage
             dp = w.execute({"op": "from_code", "in": [p.id]}, rng)
             if dp is not None and not w.stop:
+                dp = raw_trips(w, rng, dp)
+            if dp is not None and not w.stop:
                 w.execute({"op": "normalize", "in": [dp.id]}, rng)
     t = 0
     while t < cfg["trips"] and not w.stop and state is not None:
@@ -254,6 +272,9 @@ def run_c06(seed, tree, tier, known):
                 p = w.execute({"op": "perturb", "in": [c.id], "seed": rng.next64(), "kinds": cfg["kinds"]}, rng)
                 c = p or c
             d = w.execute({"op": "from_code", "in": [c.id]}, rng)
+            if d is None:
+                break
+            d = raw_trips(w, rng, d)
             if d is None:
                 break
             nxt = w.execute({"op": "normalize", "in": [d.id], "ref": rng.chance(0.15)}, rng)
